@@ -327,16 +327,116 @@ func c13Descent(c *Ctx, std *waStd, mf *waFile, fd *waFuncDecl, name string) {
 	if fd == nil {
 		return
 	}
-	src := strings.Join(waTokens(waSrc(std, mf, fd.Decl.Body)), " ")
-	// forms: `if Compare ( A , B ) < 0 { V = V . Side`  and  `if cmp := Compare ( A , B ) ; cmp < 0 { V = V . Side } else if cmp > 0 { V = V . Side`
+	// Every assignment `V = W.Left|Right` whose direct guard (the condition of the enclosing if / else-if / case of a
+	// tagless switch) is `Compare(A, B) <op> 0`, with the call written in place or bound to a local first.
 	type arm struct{ a, b, op, v, side string }
 	var arms []arm
-	for _, m := range regexp.MustCompile(`Compare \( (\w+) \. Key , (\w+) \. Key \) (<|>) 0 \{ (\w+) = (\w+) \. (Left|Right)`).FindAllStringSubmatch(src, -1) {
-		arms = append(arms, arm{m[1], m[2], m[3], m[4], m[6]})
+	bound := map[string]*waast.CallExpr{}
+	compareCall := func(e waast.Expr) *waast.CallExpr {
+		for {
+			pe, ok := e.(*waast.ParenExpr)
+			if !ok {
+				break
+			}
+			e = pe.X
+		}
+		switch x := e.(type) {
+		case *waast.CallExpr:
+			if id, ok := x.Fun.(*waast.Ident); ok && id.Name == "Compare" && len(x.Args) == 2 {
+				return x
+			}
+		case *waast.Ident:
+			return bound[x.Name]
+		}
+		return nil
 	}
-	if m := regexp.MustCompile(`cmp := Compare \( (\w+)((?: \. Key)?) , (\w+)((?: \. Key)?) \) ; cmp (<|>) 0 \{ (\w+) = \w+ \. (Left|Right) \} else if cmp (<|>) 0 \{ \w+ = \w+ \. (Left|Right)`).FindStringSubmatch(src); m != nil {
-		arms = append(arms, arm{m[1], m[3], m[5], m[6], m[7]}, arm{m[1], m[3], m[8], m[6], m[9]})
+	bind := func(s waast.Stmt) {
+		if as, ok := s.(*waast.AssignStmt); ok && len(as.Lhs) == 1 && len(as.Rhs) == 1 {
+			if id, ok := as.Lhs[0].(*waast.Ident); ok {
+				if call := compareCall(as.Rhs[0]); call != nil {
+					bound[id.Name] = call
+				} else {
+					delete(bound, id.Name)
+				}
+			}
+		}
 	}
+	operand := func(e waast.Expr) string { // `x.Key` or `key` -> the variable
+		if se, ok := e.(*waast.SelectorExpr); ok && se.Sel.Name == "Key" {
+			e = se.X
+		}
+		if id, ok := e.(*waast.Ident); ok {
+			return id.Name
+		}
+		return waSrc(std, mf, e)
+	}
+	var walk func(list []waast.Stmt, guard waast.Expr)
+	visit := func(s waast.Stmt, guard waast.Expr) {
+		switch x := s.(type) {
+		case *waast.AssignStmt:
+			bind(x)
+			if guard == nil || len(x.Lhs) != 1 || len(x.Rhs) != 1 {
+				return
+			}
+			v, ok := x.Lhs[0].(*waast.Ident)
+			se, ok2 := x.Rhs[0].(*waast.SelectorExpr)
+			if !ok || !ok2 || (se.Sel.Name != "Left" && se.Sel.Name != "Right") {
+				return
+			}
+			be, ok := guard.(*waast.BinaryExpr)
+			if !ok {
+				return
+			}
+			op := be.Op.String()
+			call := compareCall(be.X)
+			if lit, isLit := be.Y.(*waast.BasicLit); call == nil || !isLit || lit.Value != "0" || (op != "<" && op != ">") {
+				return
+			}
+			arms = append(arms, arm{operand(call.Args[0]), operand(call.Args[1]), op, v.Name, se.Sel.Name})
+		}
+	}
+	walk = func(list []waast.Stmt, guard waast.Expr) {
+		for _, s := range list {
+			switch x := s.(type) {
+			case *waast.BlockStmt:
+				walk(x.List, guard)
+			case *waast.ForStmt:
+				walk(x.Body.List, nil)
+			case *waast.RangeStmt:
+				walk(x.Body.List, nil)
+			case *waast.IfStmt:
+				if x.Init != nil {
+					bind(x.Init)
+				}
+				walk(x.Body.List, x.Cond)
+				switch e := x.Else.(type) {
+				case *waast.IfStmt:
+					walk([]waast.Stmt{e}, nil)
+				case *waast.BlockStmt:
+					walk(e.List, nil)
+				}
+			case *waast.SwitchStmt:
+				if x.Init != nil {
+					bind(x.Init)
+				}
+				if x.Tag != nil {
+					continue
+				}
+				for _, cc := range x.Body.List {
+					if cl, ok := cc.(*waast.CaseClause); ok {
+						var g waast.Expr
+						if len(cl.List) == 1 {
+							g = cl.List[0]
+						}
+						walk(cl.Body, g)
+					}
+				}
+			default:
+				visit(s, guard)
+			}
+		}
+	}
+	walk(fd.Decl.Body.List, nil)
 	if len(arms) < 2 {
 		c.Undecided("descent-orientation", name, std.Pos(mf, fd.Decl.Pos()), "the comparison arms were not recognised")
 		return
